@@ -46,6 +46,10 @@ func SetMaxRowsPerSegment4TsStore(maxRowsPerSegmentLimit int) {
 	if maxRowsPerSegmentLimit <= 0 {
 		tsStoreConf.maxRowsPerSegment = util.DefaultMaxRowsPerSegment4TsStore
 	} else {
+		// the block formats count the values of a segment in 16 bits
+		if maxRowsPerSegmentLimit > math.MaxUint16 {
+			maxRowsPerSegmentLimit = math.MaxUint16
+		}
 		tsStoreConf.maxRowsPerSegment = maxRowsPerSegmentLimit
 	}
 	log.Info("Set maxRowsPerSegmentLimit", zap.Int("limit", tsStoreConf.maxRowsPerSegment))
